@@ -341,6 +341,17 @@ class Cons:
             return False
         self.known[t] = v
         self.log.append(("eq", t, v))
+        if v == 1 and t[0] == "call" and (t[1].endswith("::starts_with") or t[1].endswith("::ends_with")) and len(t[2]) == 2:
+            # a sequence that starts with a literal is at least as long as the literal
+            seq, lit = t[2][0], t[2][1]
+            if isinstance(seq, tuple) and seq[0] == "&":
+                seq = seq[1]
+            if isinstance(lit, tuple) and lit[0] == "&":
+                lit = lit[1]
+            if isinstance(lit, tuple) and lit[0] in ("bytes", "str"):
+                ln = ("len", seq)
+                TY.setdefault(ln, (64, False))
+                self.rel.append(("Le", const(len(lit[1])), ln))
         if t[0] == "binop" and t[1] in CMP_OPS:
             op, a, b = t[1], t[2], t[3]
             if v == 0:
